@@ -557,8 +557,8 @@ fn trunc(s: &str, n: usize) -> String {
 fn budget(t: Tier) -> (u64, u64) {
     // (in-process histories, subprocess histories)
     match t {
-        Tier::Quick => (1200, 48),
-        Tier::Thorough => (40_000, 1200),
+        Tier::Quick => (simcore::scaled(1200), simcore::scaled(48)),
+        Tier::Thorough => (simcore::scaled(40_000), simcore::scaled(1200)),
     }
 }
 
